@@ -245,6 +245,17 @@ def decide(spec, tier, seed):
                          "comparison_self_tests": getattr(r, "selftests", 0),
                          "property_failures_on_real_code": len([1 for (_, p, _) in r.props if p == pid])} for r in results],
             "traces_validated_against_impl": int(sum(r.requests for r in results)),
+            "process_environment": {
+                "what": "every request is answered under a local time zone (token @tz=<zone>: time.Local of the oracle process); stand-alone "
+                        "requests are asked in a seeded random order; every %s-th window of 64 requests is asked again from 4 goroutines at once and "
+                        "the first window of every oracle process is asked concurrently BEFORE it is asked alone; each concurrent answer must equal "
+                        "the answer given alone" % os.environ.get("ORACLE_STORM_EVERY", "?"),
+                "local_zones": {z: sum(getattr(r, "local_zones", {}).get(z, 0) for r in results)
+                                for z in sorted({z for r in results for z in getattr(r, "local_zones", {})})} if len({z for r in results for z in getattr(r, "local_zones", {})}) <= 40
+                               else {"distinct zones": len({z for r in results for z in getattr(r, "local_zones", {})})},
+                "concurrent": {k: sum(getattr(r, "concurrent", {}).get(k, 0) for r in results)
+                               for k in ("groups_asked_concurrently", "concurrent_calls", "requests_asked_concurrently_first")},
+            },
             "known_findings_seen": {kid: n for kid, (k, n) in known_hits.items()},
             "broken": broken[:10],
             "notes": notes,
